@@ -220,6 +220,66 @@ def live_classes():
         yield dict(doc=dk, body=bk, merge=merge), src
 
 
+# ---- (g) legal but unusually laid out definitions -------------------------------------------------------------------------------------------
+LAYOUT_CLASSES = [
+    ("multi_target", 'class C(object):\n    """\n    Summary.\n\n    :cvar a: the a\n    :cvar b: the b\n    """\n\n    a = b = 5\n'),
+    ("tuple_unpack", 'class C(object):\n    """\n    Summary.\n\n    :cvar a: the a\n    :cvar b: the b\n    """\n\n    a, b = 1, 2\n'),
+    ("aug_assign", 'class C(object):\n    """\n    Summary.\n\n    :cvar a: the a\n    """\n\n    a: int = 1\n    a += 1\n'),
+    ("type_comment", 'class C(object):\n    """\n    Summary.\n\n    :cvar a: the a\n    """\n\n    a = 5  # type: int\n'),
+    ("comment_between", 'class C(object):\n    """\n    Summary.\n\n    :cvar a: the a\n    :cvar b: the b\n    """\n\n    a: int = 1\n    # a comment\n\n\n    b: str = "x"  # trailing\n'),
+    ("method_first", 'class C(object):\n    """\n    Summary.\n\n    :cvar a: the a\n    """\n\n    def m(self):\n        return 1\n\n    a: int = 1\n'),
+    ("nested_class", 'class C(object):\n    """\n    Summary.\n\n    :cvar a: the a\n    """\n\n    class Meta:\n        b: int = 2\n\n    a: int = 1\n'),
+    ("if_block", 'class C(object):\n    """\n    Summary.\n\n    :cvar a: the a\n    """\n\n    if True:\n        a: int = 1\n    else:\n        a: int = 2\n'),
+    ("no_docstring", 'class C(object):\n    a: int = 1\n    b: Optional[str] = None\n'),
+    ("docstring_only", 'class C(object):\n    """\n    Summary.\n\n    :cvar a: the a\n    :cvar b: the b\n    """\n'),
+    ("empty_body", "class C(object):\n    pass\n"),
+    ("ellipsis_body", "class C(object):\n    ...\n"),
+    ("annotated_no_value", 'class C(object):\n    """\n    Summary.\n\n    :cvar a: the a\n    """\n\n    a: int\n    b: "ForwardRef"\n'),
+    ("star_attr", 'class C(object):\n    """\n    Summary.\n\n    :cvar args: the args\n    :cvar kwargs: the kwargs\n    """\n\n    args: tuple = ()\n    kwargs: Optional[dict] = None\n'),
+    ("lambda_value", 'class C(object):\n    """\n    Summary.\n\n    :cvar f: the f\n    """\n\n    f = lambda self, x: x\n'),
+    ("subscript_target", 'class C(object):\n    """\n    Summary.\n    """\n\n    d = {}\n    d["k"] = 1\n'),
+    ("attribute_target", 'class C(object):\n    """\n    Summary.\n    """\n\n    a = object()\n    a.b = 1\n'),
+    ("decorated_bases", '@dataclass(frozen=True)\nclass C(Base, metaclass=Meta, total=False):\n    """\n    Summary.\n\n    :cvar a: the a\n    """\n\n    a: int = 1\n'),
+    ("return_type_attr", 'class C(object):\n    """\n    Summary.\n\n    :cvar a: the a\n    :cvar return_type: the rt\n    """\n\n    a: int = 1\n    return_type: str = "x"\n'),
+    ("walrus_value", 'class C(object):\n    """\n    Summary.\n\n    :cvar a: the a\n    """\n\n    a: int = (b := 5)\n'),
+    ("fstring_value", 'class C(object):\n    """\n    Summary.\n\n    :cvar a: the a\n    """\n\n    a: str = f"x{1}"\n'),
+    ("bytes_value", 'class C(object):\n    """\n    Summary.\n\n    :cvar a: the a\n    """\n\n    a: bytes = b"x"\n'),
+    ("negative_value", 'class C(object):\n    """\n    Summary.\n\n    :cvar a: the a\n    """\n\n    a: int = -5\n    b: float = -0.5\n    c: complex = 1j\n'),
+    ("set_value", 'class C(object):\n    """\n    Summary.\n\n    :cvar a: the a\n    """\n\n    a: set = {1, 2}\n    b: frozenset = frozenset()\n    c: dict = {}\n    d: list = []\n    e: tuple = ()\n'),
+]
+LAYOUT_FUNCTIONS = [
+    ("posonly_kwonly", 'def f(a, /, b, *, c=1):\n    """\n    Summary.\n\n    :param a: the a\n    :param b: the b\n    :param c: the c\n    """\n    return a\n'),
+    ("async_def", 'async def f(a, b=2):\n    """\n    Summary.\n\n    :param a: the a\n    :param b: the b\n    """\n    return a\n'),
+    ("decorated", '@deco(1)\n@other\ndef f(a, b=2):\n    """\n    Summary.\n\n    :param a: the a\n    :param b: the b\n    """\n    return a\n'),
+    ("continuation", 'def f(a, \\\n      b=2):\n    """\n    Summary.\n\n    :param a: the a\n    :param b: the b\n    """\n    return a\n'),
+    ("comment_in_header", 'def f(\n    a,  # the a\n    b=2,  # the b\n):\n    """\n    Summary.\n\n    :param a: the a\n    :param b: the b\n    """\n    return a\n'),
+    ("type_comments", 'def f(a, b=2):\n    # type: (int, int) -> int\n    """\n    Summary.\n\n    :param a: the a\n    :param b: the b\n    """\n    return a\n'),
+    ("nested_def", 'def f(a):\n    """\n    Summary.\n\n    :param a: the a\n    """\n    def g(b):\n        """\n        Inner.\n\n        :param b: the b\n        """\n        return b\n    return g\n'),
+    ("lambda_default", 'def f(a, cb=lambda x: x + 1):\n    """\n    Summary.\n\n    :param a: the a\n    :param cb: the cb\n    """\n    return cb(a)\n'),
+    ("star_only", 'def f(*args, **kwargs):\n    """\n    Summary.\n\n    :param args: the args\n    :param kwargs: the kwargs\n    """\n    return args\n'),
+    ("docstring_not_first", 'def f(a):\n    x = 1\n    """\n    Not a docstring.\n\n    :param a: the a\n    """\n    return a\n'),
+    ("no_params", 'def f():\n    """\n    Summary.\n\n    :return: the result\n    :rtype: ```int```\n    """\n    return 1\n'),
+    ("return_annotation_complex", 'def f(a: "int", b: Optional[List[Dict[str, int]]] = None) -> Tuple[int, ...]:\n    """\n    Summary.\n\n    :param a: the a\n    :param b: the b\n    """\n    return (a,)\n'),
+    ("self_only", 'def f(self):\n    """\n    Summary.\n    """\n    return self\n'),
+    ("cls_first", 'def f(cls, a=1):\n    """\n    Summary.\n\n    :param a: the a\n    """\n    return a\n'),
+    ("yield_body", 'def f(a):\n    """\n    Summary.\n\n    :param a: the a\n\n    :return: items\n    """\n    yield a\n'),
+    ("multiple_returns", 'def f(a):\n    """\n    Summary.\n\n    :param a: the a\n    """\n    if a:\n        return 1\n    return "x"\n'),
+    ("ellipsis_default", 'def f(a=..., b=None, c=NotImplemented):\n    """\n    Summary.\n\n    :param a: the a\n    :param b: the b\n    :param c: the c\n    """\n    return a\n'),
+    ("unicode_names", 'def f(número, größe=2):\n    """\n    Summary.\n\n    :param número: the n\n    :param größe: the g\n    """\n    return número\n'),
+]
+LAYOUT_ARGPARSE = [
+    ("positional", 'def set_cli_args(argument_parser):\n    """\n    Set CLI arguments\n\n    :param argument_parser: argument parser\n    :type argument_parser: ```ArgumentParser```\n\n    :return: argument_parser\n    :rtype: ```ArgumentParser```\n    """\n    argument_parser.description = "Summary."\n    argument_parser.add_argument("name", help="the name")\n    return argument_parser\n'),
+    ("short_and_long", 'def set_cli_args(argument_parser):\n    """\n    Set CLI arguments\n\n    :param argument_parser: argument parser\n    :type argument_parser: ```ArgumentParser```\n\n    :return: argument_parser\n    :rtype: ```ArgumentParser```\n    """\n    argument_parser.description = "Summary."\n    argument_parser.add_argument("-n", "--name", help="the name", default="x")\n    return argument_parser\n'),
+    ("nargs_action", 'def set_cli_args(argument_parser):\n    """\n    Set CLI arguments\n\n    :param argument_parser: argument parser\n    :type argument_parser: ```ArgumentParser```\n\n    :return: argument_parser\n    :rtype: ```ArgumentParser```\n    """\n    argument_parser.description = "Summary."\n    argument_parser.add_argument("--names", nargs="+", help="the names")\n    argument_parser.add_argument("--flag", action="store_true", help="a flag")\n    argument_parser.add_argument("--count", action="count", default=0)\n    return argument_parser\n'),
+    ("dest_metavar", 'def set_cli_args(argument_parser):\n    """\n    Set CLI arguments\n\n    :param argument_parser: argument parser\n    :type argument_parser: ```ArgumentParser```\n\n    :return: argument_parser\n    :rtype: ```ArgumentParser```\n    """\n    argument_parser.description = "Summary."\n    argument_parser.add_argument("--the-name", dest="name", metavar="NAME", help="the name", type=str, required=False)\n    return argument_parser\n'),
+    ("no_help", 'def set_cli_args(argument_parser):\n    """\n    Set CLI arguments\n\n    :param argument_parser: argument parser\n    :type argument_parser: ```ArgumentParser```\n\n    :return: argument_parser\n    :rtype: ```ArgumentParser```\n    """\n    argument_parser.description = "Summary."\n    argument_parser.add_argument("--a")\n    argument_parser.add_argument("--b", type=int)\n    return argument_parser\n'),
+    ("other_statements", 'def set_cli_args(argument_parser):\n    """\n    Set CLI arguments\n\n    :param argument_parser: argument parser\n    :type argument_parser: ```ArgumentParser```\n\n    :return: argument_parser\n    :rtype: ```ArgumentParser```\n    """\n    argument_parser.description = "Summary."\n    group = argument_parser.add_argument_group("g")\n    group.add_argument("--a", help="the a", default=1)\n    argument_parser.set_defaults(a=2)\n    x = 5\n    return argument_parser\n'),
+    ("tuple_return", 'def set_cli_args(argument_parser):\n    """\n    Set CLI arguments\n\n    :param argument_parser: argument parser\n    :type argument_parser: ```ArgumentParser```\n\n    :return: argument_parser, the result\n    :rtype: ```Tuple[ArgumentParser, int]```\n    """\n    argument_parser.description = "Summary."\n    argument_parser.add_argument("--a", help="the a", type=int, default=1)\n    return argument_parser, 5\n'),
+    ("no_description", 'def set_cli_args(argument_parser):\n    """\n    Set CLI arguments\n\n    :param argument_parser: argument parser\n    :type argument_parser: ```ArgumentParser```\n\n    :return: argument_parser\n    :rtype: ```ArgumentParser```\n    """\n    argument_parser.add_argument("--a", help="the a", type=int, default=1)\n    return argument_parser\n'),
+    ("choices_mixed", 'def set_cli_args(argument_parser):\n    """\n    Set CLI arguments\n\n    :param argument_parser: argument parser\n    :type argument_parser: ```ArgumentParser```\n\n    :return: argument_parser\n    :rtype: ```ArgumentParser```\n    """\n    argument_parser.description = "Summary."\n    argument_parser.add_argument("--a", choices=("x", 1, None), help="the a")\n    argument_parser.add_argument("--b", choices=range(3), type=int)\n    return argument_parser\n'),
+]
+
+
 def _import_scratch(src, tag):
     """write src as a module of its own and import it (live objects need retrievable source)"""
     import importlib.util
@@ -238,6 +298,7 @@ def _import_scratch(src, tag):
 
 def cases(tier, seed):
     n = 3 if tier == "quick" else 4
+    yield dict(kind="layout_block")
     pf_live = list(partial_functions())
     for lo in range(0, len(pf_live), 40):
         yield dict(kind="live_function_block", lo=lo, hi=lo + 40)
@@ -335,6 +396,38 @@ def run(case):
             names = [(nm, kind, (nm in key["documented"]) or (kind in ("vararg", "kwarg") and nm in doc_text)) for nm, kind in names]
             report("function", ir, dict(kind="partial_one", key=key, src=src), signature=names, source="partial", style=key["style"], n_documented=len(key["documented"]),
                    header_kind=key["header"].split("(", 1)[1])
+    elif case["kind"] in ("layout_block", "layout_one"):
+        import cdd.argparse_function.parse
+        import cdd.class_.parse
+
+        items = [(case["family"], case["name"], case["src"])] if case["kind"] == "layout_one" else (
+            [("class", n, s_) for n, s_ in LAYOUT_CLASSES] + [("function", n, s_) for n, s_ in LAYOUT_FUNCTIONS] + [("argparse", n, s_) for n, s_ in LAYOUT_ARGPARSE])
+        for family, name, src in items:
+            node = next(x for x in ast.parse(src).body if isinstance(x, (ast.ClassDef, ast.FunctionDef, ast.AsyncFunctionDef)))
+            parsers = {"class": [("class", lambda n_: cdd.class_.parse.class_(n_)), ("class_infer", lambda n_: cdd.class_.parse.class_(n_, infer_type=True))],
+                       "function": [("function", lambda n_: cdd.function.parse.function(n_)), ("function_infer", lambda n_: cdd.function.parse.function(n_, infer_type=True))],
+                       "argparse": [("argparse", lambda n_: cdd.argparse_function.parse.argparse_ast(n_))]}[family]
+            for pname, f in parsers:
+                n += 1
+                transitions += 1
+                try:
+                    ir = f(node)
+                except Exception:
+                    outcomes.add("raises")
+                    continue
+                outcomes.add("returns")
+                sig_names = None
+                if family == "function":
+                    args = node.args
+                    nm = [(a.arg, "positional") for a in args.posonlyargs + args.args] + [(a.arg, "kwonly") for a in args.kwonlyargs]
+                    if nm and nm[0][0] in ("self", "cls"):
+                        nm = nm[1:]
+                    if args.vararg:
+                        nm.append((args.vararg.arg, "vararg"))
+                    if args.kwarg:
+                        nm.append((args.kwarg.arg, "kwarg"))
+                    sig_names = [(a, k, a in src.split('"""')[1] if src.count('"""') >= 2 else False) for a, k in nm]
+                report(pname, ir, dict(kind="layout_one", family=family, name=name, src=src), signature=sig_names, source="layout", layout=name)
     elif case["kind"] in ("live_function_block", "live_function_one"):
         import shutil
 
@@ -437,9 +530,10 @@ def describe(tier):
         "grammar-generated docstrings: 3 styles x all orders of <= 4 of 7 sections x separators x indentation; (c) every interface of I(1) u I(2) "
         "emitted through 10 format variants and re-parsed; (d) {p} functions documenting every subset and permutation of a 3-parameter "
         "signature under 5 signature shapes (defaults, self, keyword-only, *args/**kwargs), 3 styles, indented or not; (f) the same {p} functions and {lc} classes (4 docstring styles x 5 bodies x merge_inner_function) imported from a scratch module and "
-        "parsed as live objects (inspect path); (e) {j} JSON-schema documents: a property built from "
+        "parsed as live objects (inspect path); (g) {lay} legal but unusually laid out classes, functions and argparse functions (multi-target and tuple assignments, type comments, nested and decorated definitions, "
+        "positional-only/keyword-only, async, line continuation, argparse positionals/nargs/actions/groups) through the AST parsers with and without infer_type; (e) {j} JSON-schema documents: a property built from "
         "8 types x 7 patterns (word lists, lists with non-letters, a real regex) x 8 further keywords (enum, format, items, $ref, anyOf, bounds, title) x default x description x required; "
-        "a case = one parser input".format(n=3 if tier == "quick" else 4, g=sum(1 for _ in grammar_docstrings()), p=sum(1 for _ in partial_functions()), j=sum(1 for _ in json_schema_documents()), lc=sum(1 for _ in live_classes())),
+        "a case = one parser input".format(n=3 if tier == "quick" else 4, g=sum(1 for _ in grammar_docstrings()), p=sum(1 for _ in partial_functions()), j=sum(1 for _ in json_schema_documents()), lc=sum(1 for _ in live_classes()), lay=len(LAYOUT_CLASSES) + len(LAYOUT_FUNCTIONS) + len(LAYOUT_ARGPARSE)),
         bounds=dict(sigma_doc=c11.SIGMA_DOC, sections=list(SECTIONS["rest"]), signature=SIG),
         exhaustive=True,
         assumptions=["shape predicate mc/checks/c14.py:wellformed transcribes the property text; 'doc' may be None at the top level as the declared type says Optional[str]"],
